@@ -145,10 +145,16 @@ Proof. vm_compute. reflexivity. Qed.
 
 (* a session reaching a second exchange with the roles swapped: the hypotheses of
    C03_answer_mirrors_offer are satisfiable and the exchange returns Ok *)
-Example C03_example_session :
-  exists a b x,
-    run_session true ex_tables (init_pc 0) (init_pc 2)
-      [StepA (OpAddTrack 0); StepA (OpAddTransceiver 1 SendOnly true); StepA OpDataChannel;
-       StepB (OpAddTrack 1); NegotiateAB; StepB (OpAddTrack 0)] = Ok (a, b) /\
-    exchange true ex_tables b a = Ok x /\ length (d_media (x_offer x)) = 4%nat.
-Proof. eexists. eexists. eexists. vm_compute. repeat split. Qed.
+Definition ex_session_check : bool :=
+  match run_session true ex_tables (init_pc 0) (init_pc 2)
+          [StepA (OpAddTrack 0); StepA (OpAddTransceiver 1 SendOnly true); StepA OpDataChannel;
+           StepB (OpAddTrack 1); NegotiateAB; StepB (OpAddTransceiver 0 RecvOnly false)] with
+  | Ok (a, b) =>
+      match exchange true ex_tables b a with
+      | Ok x => Nat.eqb (length (d_media (x_offer x))) 4
+      | _ => false
+      end
+  | _ => false
+  end.
+Example C03_example_session : ex_session_check = true.
+Proof. vm_compute. reflexivity. Qed.
